@@ -238,7 +238,12 @@ class World:
                 res_idx.append(len(self.live) - 1)
         after = [snap(t) for t in self.live]
         if any(len(set(a[k])) != len(a[k]) for a in after for k in ("obs", "samp")):
-            self.out_of_domain = True
+            self.out_of_domain = "table-with-duplicated-IDs(empty table, F-C05-1 masking)"
+        n_before = len(self.prev_after)
+        if any(str(a["type"]).startswith("!!") for a in after[n_before:]):
+            # a table that is returned with a matrix shape disagreeing with its IDs (e.g. collapse of an Nx0
+            # table gives a 0x0 matrix with N IDs, let through by errcheck because 'empty' masks the size tests)
+            self.out_of_domain = "returned-table-inconsistent-at-birth(shape vs IDs, F-C05-1 masking)"
         rec = {"name": name, "args": args, "raised": bool(raised), "inplace": bool(inplace), "recv": recv,
                "results": res_idx, "result_contents": [after[i] for i in res_idx], "ref": ref, "after": after,
                "ext": self.ext_snaps(), "ext_id_idx": list(self.ext_id_idx), "facts": self.facts(old_indptr), "poke": 0}
@@ -324,6 +329,9 @@ class World:
     # ---- API calls
     def call(self, name, recv, p):
         """run one API call on live table `recv`; p = python-level parameters (JSON-able)"""
+        if self.out_of_domain:
+            # a table outside the property's domain exists: the history ends here
+            return [], "out-of-domain"
         t = self.live[recv]
         before, old = self.pre()
         cur = before[recv]
@@ -499,6 +507,8 @@ def api_call(W, name, recv, p, rng, do_poke=True):
     """one call of the property's operation list, followed by the poke of what it returned"""
     k = len(W.calls)
     idx, raised = W.call(name, recv, p)
+    if len(W.calls) == k:
+        return idx, raised
     rec = W.calls[k]
     if not rec["inplace"] and raised is None and do_poke:
         n = 0
@@ -727,7 +737,7 @@ def prep_layout(W, recv, how, rng):
         if raised or not idx:
             return recv
         r = idx[0]
-        if how == "csc_unsorted":
+        if how == "csc_unsorted" and not W.out_of_domain:
             W.call("transform", r, {"axis": "sample", "fn": "ident", "inplace": True})
         return r
     if how == "filtered_csc":
@@ -860,7 +870,7 @@ def check(ctx, W, case, tags=()):
     for k, v in W.stats.items():
         ctx.count(k, v)
     if W.out_of_domain:
-        ctx.count("history-ended:table-with-duplicated-IDs(empty table, F-C05-1 masking)")
+        ctx.count("history-ended:" + W.out_of_domain)
     for pr in W.problems:
         ctx.fail(case, "harness.sanity", list(tags) + [pr])
     req = {"calls": [{k: v for k, v in c.items() if k != "error"} for c in calls]}
